@@ -16,7 +16,7 @@
 
 int rand (void) { static int c; return c++; }
 
-typedef struct { int codec, role; uint32_t k, r, len; uint32_t m; uint32_t N1; int64_t seed; } tup_t;
+typedef struct { int codec, role; uint32_t k, r, len; uint32_t m; uint32_t N1; int64_t seed; int pre; } tup_t;	/* pre: field size set through of_set_control_parameter before configuring (codec 2), 0 = none */
 static tup_t *TU; static long NTU, CAPTU;
 static int st_states, st_trans, st_exec, st_dn, st_acc, st_rej, st_func;
 static char g_case[VF_SLOT_LEN];
@@ -24,7 +24,7 @@ static void viol (const char *sig) { vf_viol ("C09", sig, "%s", g_case); }
 
 static void add_tu (int codec, int role, uint32_t k, uint32_t r, uint32_t len, uint32_t m, uint32_t N1, int64_t seed)
 {
-	tup_t t = {codec, role, k, r, len, m, N1, seed};
+	tup_t t = {codec, role, k, r, len, m, N1, seed, 0};
 	if (NTU == CAPTU) { CAPTU = CAPTU ? CAPTU * 2 : 4096; TU = realloc (TU, sizeof (tup_t) * (size_t) CAPTU); }
 	TU[NTU++] = t;
 }
@@ -55,6 +55,7 @@ static of_session_t *open_tuple (const tup_t *t, of_status_t *pst)
 	of_codec_id_t id = t->codec == 1 ? OF_CODEC_REED_SOLOMON_GF_2_8_STABLE : t->codec == 2 ? OF_CODEC_REED_SOLOMON_GF_2_M_STABLE : OF_CODEC_LDPC_STAIRCASE_STABLE;
 	*pst = of_create_codec_instance (&s, id, (of_codec_type_t) t->role, 0);
 	if (*pst != OF_STATUS_OK || !s) return NULL;
+	if (t->codec == 2 && t->pre) { UINT16 fm = (UINT16) t->pre; of_set_control_parameter (s, OF_RS_CTRL_SET_FIELD_SIZE, &fm, sizeof fm); }
 	if (t->codec == 1) { of_rs_parameters_t p; memset (&p, 0, sizeof p); p.nb_source_symbols = t->k; p.nb_repair_symbols = t->r; p.encoding_symbol_length = t->len; *pst = of_set_fec_parameters (s, (of_parameters_t *) &p); }
 	else if (t->codec == 2) { of_rs_2_m_parameters_t p; memset (&p, 0, sizeof p); p.nb_source_symbols = t->k; p.nb_repair_symbols = t->r; p.encoding_symbol_length = t->len; p.m = (UINT16) t->m; *pst = of_set_fec_parameters (s, (of_parameters_t *) &p); }
 	else { of_ldpc_parameters_t p; memset (&p, 0, sizeof p); p.nb_source_symbols = t->k; p.nb_repair_symbols = t->r; p.encoding_symbol_length = t->len; p.prng_seed = (INT32) t->seed; p.N1 = (UINT8) t->N1; *pst = of_set_fec_parameters (s, (of_parameters_t *) &p); }
@@ -113,7 +114,7 @@ out:
 
 static void tup_case (const tup_t *t)
 {
-	snprintf (g_case, sizeof g_case, "tuple codec=%d role=%d k=%u r=%u len=%u m=%u N1=%u seed=%lld", t->codec, t->role, t->k, t->r, t->len, t->m, t->N1, (long long) t->seed);
+	snprintf (g_case, sizeof g_case, "tuple codec=%d role=%d k=%u r=%u len=%u m=%u N1=%u seed=%lld pre=%d", t->codec, t->role, t->k, t->r, t->len, t->m, t->N1, (long long) t->seed, t->pre);
 	memcpy (vf_slot (), g_case, sizeof g_case);
 }
 static void grid_item (long it, void *arg)
@@ -153,7 +154,7 @@ static const char *CORR[] = {
 static void args_item (long it, void *arg)
 {
 	ac_t *a = &AC[it];
-	tup_t t = {a->codec, a->role, a->k, a->r, a->len, a->m, a->N1, a->seed};
+	tup_t t = {a->codec, a->role, a->k, a->r, a->len, a->m, a->N1, a->seed, 0};
 	uint32_t k = a->k, n = a->k + a->r, i;
 	of_status_t st, cst = OF_STATUS_OK;
 	of_session_t *s;
@@ -234,7 +235,8 @@ static void item_replay (long it, void *arg)
 	vf_slot_set_prop ("C09");
 	if (!strncmp (cs, "tuple ", 6)) {
 		tup_t t; long long seed;
-		if (sscanf (cs, "tuple codec=%d role=%d k=%u r=%u len=%u m=%u N1=%u seed=%lld", &t.codec, &t.role, &t.k, &t.r, &t.len, &t.m, &t.N1, &seed) != 8) return;
+		t.pre = 0;
+		if (sscanf (cs, "tuple codec=%d role=%d k=%u r=%u len=%u m=%u N1=%u seed=%lld pre=%d", &t.codec, &t.role, &t.k, &t.r, &t.len, &t.m, &t.N1, &seed, &t.pre) < 8) return;
 		t.seed = seed; TU = &t; NTU = 1; grid_item (0, NULL);
 	} else if (!strncmp (cs, "args ", 5)) {
 		ac_t a;
@@ -274,7 +276,11 @@ int main (int argc, char **argv)
 					if (ks[a] <= N) nr = uniq_add (rs, nr, N - ks[a] + 1);
 					nr = uniq_add (rs, nr, 0x7FFFFFFFULL); nr = uniq_add (rs, nr, 0x80000000ULL); nr = uniq_add (rs, nr, 0xFFFFFFFFULL); nr = uniq_add (rs, nr, 0xFFFFFFFFULL - ks[a] + 1);
 					for (b = 0; b < nr; b++) for (c = 0; c < 9; c++) for (role = 0; role < 3; role++) {
-						if (codec != 3) { add_tu (codec, roles[role], (uint32_t) ks[a], (uint32_t) rs[b], (uint32_t) lens[c], m, 0, 0); continue; }
+						if (codec != 3) {
+							add_tu (codec, roles[role], (uint32_t) ks[a], (uint32_t) rs[b], (uint32_t) lens[c], m, 0, 0);
+							if (codec == 2 && (m == 4 || m == 8) && lens[c] >= 1 && lens[c] <= 9) { add_tu (codec, roles[role], (uint32_t) ks[a], (uint32_t) rs[b], (uint32_t) lens[c], m, 0, 0); TU[NTU - 1].pre = 4; add_tu (codec, roles[role], (uint32_t) ks[a], (uint32_t) rs[b], (uint32_t) lens[c], m, 0, 0); TU[NTU - 1].pre = 8; }
+							continue;
+						}
 						{
 							uint64_t n1s[12]; int nn = 0;
 							n1s[nn++] = 0; nn = uniq_add (n1s, nn, 1); nn = uniq_add (n1s, nn, 2); nn = uniq_add (n1s, nn, 3); nn = uniq_add (n1s, nn, 4);
@@ -285,7 +291,7 @@ int main (int argc, char **argv)
 							for (d = 0; d < nn; d++) for (e = 0; e < 7; e++) {
 								/* quick tier: the huge accepted shapes only with two lengths and one role */
 								if (!thorough && ks[a] + rs[b] > 10000 && ks[a] + rs[b] <= 50000 && (lens[c] > 8 || role != 1 || (e != 3 && e != 5) || n1s[d] > 4)) {
-									tup_t t = {codec, roles[role], (uint32_t) ks[a], (uint32_t) rs[b], (uint32_t) lens[c], m, (uint32_t) n1s[d], seeds[e]};
+									tup_t t = {codec, roles[role], (uint32_t) ks[a], (uint32_t) rs[b], (uint32_t) lens[c], m, (uint32_t) n1s[d], seeds[e], 0};
 									if (!invalid_why (&t)) continue;
 								}
 								add_tu (codec, roles[role], (uint32_t) ks[a], (uint32_t) rs[b], (uint32_t) lens[c], m, (uint32_t) n1s[d], seeds[e]);
